@@ -43,7 +43,9 @@ PANELS = [
     P('epd2in9b_v4', 128, 296, color='tri', three=True,
       extras=['update_and_display_frame_base', 'display_frame_partial']),
     P('epd2in9bc', 128, 296, three=True, extras=['set_border_color'], family='uc'),
-    P('epd2in9d', 128, 296, family='uc'),
+    # busy polarity of the 2.9in D: UNVERIFIED (vendor code and family say busy-low, the driver - presumably
+    # tested on hardware, and unable to initialise if wrong - says busy-high): the driver's constant is taken
+    P('epd2in9d', 128, 296, family='uc', busy_low=False),
     P('epd3in7', 280, 480),
     P('epd4in2', 400, 300, quick=True, extras=['shift_display'], family='uc'),
     P('epd5in65f', 600, 448, color='oct', family='uc', frame=600 * 448 // 2),
